@@ -345,6 +345,8 @@ class Core:
                     s.add(self._feas_tr(a))
             for ln in ab.len_terms.values():
                 s.add(ln >= 0)
+            for fact in ab.extra.values():
+                s.add(fact)
             lits = list(ab.literals.values())
             if len(lits) > 1:
                 s.add(z3.Distinct(*lits))
